@@ -1118,6 +1118,10 @@ func (env *Env) evalCall(e *E) SV {
 			// number of separators bytes.Split finds in its argument (A-SPLIT)
 			a := env.term(env.eval(args[0]))
 			return SV{V: Scalar{App(SBV(64), "sep_count", a)}, T: types.Typ[types.Int]}
+		case "strJoin":
+			// strings.Join(parts, sep) as modelled by the strings.Split / strings.Join intrinsics (A-STRSPLIT)
+			a, b := env.term(env.eval(args[0])), env.term(env.eval(args[1]))
+			return SV{V: Scalar{Term{fmt.Sprintf("(str_join %s %s)", a.S, b.S), SStr}}, T: types.Typ[types.String]}
 		case "bytesEq":
 			a, b := env.term(env.eval(args[0])), env.term(env.eval(args[1]))
 			return SV{V: Scalar{env.bytesEq(a, b)}, T: boolT}
